@@ -392,6 +392,7 @@ func soak(f []string) string {
 	extraHist := map[int64]int{}
 	fails := map[string]int{}
 	roundBad := false
+	forceNew := false
 	curKind := ""
 	fail := func(symptom, msg string) {
 		bad++
@@ -424,10 +425,11 @@ func soak(f []string) string {
 	}
 	newRT()
 	for i := 0; i < rounds; i++ {
-		if rng.Intn(4) == 0 || roundBad {
+		if rng.Intn(4) == 0 || roundBad || forceNew {
 			newRT() // otherwise re-use the runtime that was interrupted in the previous round (C03 link)
 		}
 		roundBad = false
+		forceNew = false
 		sc := soakScripts[rng.Intn(len(soakScripts))]
 		curKind = sc.name
 		variant := rng.Intn(10) // 0: interrupt while idle; 1: idle interrupt then clear; else async
@@ -497,10 +499,17 @@ func soak(f []string) string {
 			fail("state", fmt.Sprintf("round %d %s: state after return flag=%d jobs=%d callStack=%d", i, sc.name, fl, jobs, cs))
 		}
 		before := atomic.LoadInt64(&ticks)
+		// watchdog: leftover jobs must not hang the check.  20 s is far above a normal follow-up call; if the timer fires
+		// anyway (starved machine) without having interrupted the call, wait for it and discard this runtime, so that
+		// its pending Interrupt(-2) cannot be mistaken for a result of the next round.
 		wrt := rt
-		wd := time.AfterFunc(3*time.Second, func() { wrt.Interrupt(int64(-2)) })
+		fired := make(chan struct{})
+		wd := time.AfterFunc(20*time.Second, func() { wrt.Interrupt(int64(-2)); close(fired) })
 		val, err := rt.RunString("tick();41+1")
-		wd.Stop()
+		if !wd.Stop() {
+			<-fired
+			forceNew = true
+		}
 		if err != nil || val.ToInteger() != 42 || atomic.LoadInt64(&ticks) != before+1 || atomic.LoadInt64(&bads) != 0 {
 			fail("reuse", fmt.Sprintf("round %d %s: runtime not reusable: %v err=%v ticks+%d", i, sc.name, val, err, atomic.LoadInt64(&ticks)-before))
 		}
